@@ -2,7 +2,23 @@
 import engine as E
 
 
-def run_policy(prop, tier, seed, work, sig_fields, extra_env=None, nontrivial=None):
+def tzfile_with_offset_change_ahead(path, ahead=3600):
+    """A zoneinfo file (TZif v1) for a place that is at UTC+1 now and falls back to UTC+0 `ahead` seconds from now:
+    any lifetime computed on the wall clock (next day, same time) differs from the same lifetime in elapsed seconds."""
+    import struct, time
+    now = int(time.time())
+    trans = [now - 10 * 365 * 86400, now + ahead]
+    idx = [0, 1]
+    types = [(3600, 1, 0), (0, 0, 4)]
+    abbr = b"DST\0STD\0"
+    data = b"TZif" + b"\0" + b"\0" * 15 + struct.pack(">6l", 0, 0, 0, len(trans), len(types), len(abbr))
+    data += b"".join(struct.pack(">l", t) for t in trans) + bytes(idx)
+    data += b"".join(struct.pack(">lBB", *t) for t in types) + abbr
+    open(path, "wb").write(data)
+    return path
+
+
+def run_policy(prop, tier, seed, work, sig_fields, extra_env=None, nontrivial=None, second_pass=None):
     res = E.Result(prop, tier, seed)
     cov = res.cov
     binary = E.build_harness(work)
@@ -67,6 +83,33 @@ def run_policy(prop, tier, seed, work, sig_fields, extra_env=None, nontrivial=No
             cls = res.classify(sig, ev, known)
             if cls == "violation":
                 res.sample({"deviation": d, "event": ev})
+    if second_pass:
+        # the same rows on a deployment that differs in something the specification does not mention (e.g. the local
+        # time zone): every guard must hold there as well
+        tag, env_extra, sig_extra, select = second_pass
+        rows = [c for c in cases if select(c)]
+        envp = dict(env)
+        envp.update(env_extra)
+        envp["VERIF_MUTATIONS"] = "0"
+        evsp, devsp = execute(rows, tag, envp)
+        cov["rows_repeated_%s" % tag] = len(rows)
+        cov["traces_validated_against_impl"] += len(rows)
+        minep = [d for d in devsp if any(g.startswith("G_%s_" % prop) for g in d["guards"])]
+        if minep:
+            evsq, devsq = execute([dict(evsp[d["line"] - 1]["case"]) for d in minep], tag + "-confirm", envp)
+            againp = {d["line"]: d for d in devsq}
+            for k, d in enumerate(minep):
+                ev = evsp[d["line"] - 1]
+                guards = [g for g in d["guards"] if g.startswith("G_%s_" % prop)]
+                d2 = againp.get(k + 1)
+                if not d2 or not set(guards) & set(d2["guards"]):
+                    res.notes.append("deviation at row %d (%s) did not reproduce; ignored" % (d["line"], tag))
+                    continue
+                sig = {"action": "Issue", "guards": guards}
+                sig.update(sig_fields(ev))
+                sig.update(sig_extra)
+                if res.classify(sig, ev, known) == "violation":
+                    res.sample({"deviation": d, "event": ev, "pass": tag})
     res.assumptions = ["TLC 1.8 and its Json/CSV modules", "Go x509/ssh/pem parsers used to project certificates and to "
                        "classify mutated keys", "harness key factory produces keys of the stated algorithm/size",
                        "seconds granularity: one second of slack on every bound"]
